@@ -812,6 +812,8 @@ func runC08(c *Ctx) {
 	for k := 0; k < c.N; k++ {
 		c.plySpecCaseEP(c.plySpecGen(), "c08.holds.meaning", k%4 == 0)
 	}
+	// round 2: every count / index type × format × extra-list position once per run, and faces of unsupported sizes (c08_mesh.go)
+	c.plyMeshSweep()
 	// header parser, error and glue branches (model vs ply.ReadHeader / ply.ReadMesh): fixed variants …
 	for _, h := range plyHeaderVariants {
 		data := []byte(h)
